@@ -222,6 +222,10 @@ def obligations(tier, seed):
                     "non-truth target in {missing, empty, definition absent, stale, agreeing, stale-with-one-extra-trailing-parameter} and the interface description (pool of 3, one with a return entry that carries a default): exhaustive"
                     % (KINDS[t], "method" if m else "top-level function", "__main__.main(argv)" if via else "conformance.ground_truth"),
                     timeout=280 if tier == "quick" else 1200, path_timeout=120, funcs=FUNCS))
+    obs.append(Ob(name="absent_but_nested_same_name", params=[("t", "int"), ("g", "int"), ("i", "int")], pre=["0 <= t <= 2", "0 <= g <= 2", "0 <= i <= 2"],
+                  body="H.agrees(t, g, 6, 6, 0, i, {ACTIVE})", witness=(1, 0, 0), kind="F",
+                  bounds="every truth kind x which kinds are given x 3 descriptions; every target file lacks the definition at module level but holds "
+                  "definitions with the same simple names nested inside another class", timeout=200, funcs=FUNCS))
     obs.append(Ob(name="second_file_of_truth_kind", params=[("t", "int"), ("st", "int"), ("m", "int"), ("i", "int")],
                   pre=["0 <= t <= 2", "0 <= st <= 2", "0 <= m <= 1", "0 <= i <= 1"], body="H.second_file(t, st, m, i, {ACTIVE})",
                   witness=(1, 0, 0, 0), kind="F",
